@@ -112,6 +112,8 @@ def geometry_constants(ct: Container, rep, rule="geometry-constants"):
         if ff.f.name == "new":
             continue
         for e in ff.ev("seek"):
+            if str(getattr(e, "whence", "0")) not in ("0", "None"):
+                continue      # a relative seek skips bytes (reserved words of a header being read); it is not a table position
             t = ff.resolve(e.target)
             lits = [x.value for x in ast.walk(t) if isinstance(x, ast.Constant) and isinstance(x.value, int) and x.value > 1]
             if not lits:
